@@ -204,6 +204,35 @@ pub fn i128_div_rounded(
     round_quot(quot, rem as u128, divisor as u128, mode).unwrap()
 }
 
+/// Divide 'divident' by 'divisor * 10^p' and round result according to
+/// 'mode'. Pre-condition: 0 < p <= 18.
+#[doc(hidden)]
+#[must_use]
+pub fn i128_div_shifted_rounded(
+    mut divident: i128,
+    mut divisor: i128,
+    p: u8,
+    mode: Option<RoundingMode>,
+) -> i128 {
+    debug_assert!(p > 0);
+    if divisor < 0 {
+        divident = -divident;
+        divisor = -divisor;
+    }
+    let shift = ten_pow(p);
+    let (quot, rem1) = i128_div_mod_floor(divident, divisor);
+    let (quot, rem2) = i128_div_mod_floor(quot, shift);
+    // Now we have
+    // divident = quot * (divisor * shift) + rem2 * divisor + rem1
+    // with 0 <= rem1 < divisor and 0 <= rem2 < shift, i.e. the fraction to
+    // be rounded is (rem2 + rem1 / divisor) / shift. 2 * rem2 and shift are
+    // both even, so comparing 2 * rem2 + (rem1 != 0) to 2 * shift gives the
+    // same result as comparing the exact fraction to 1/2.
+    let rem = ((rem2 as u128) << 1) | u128::from(rem1 != 0);
+    // |quot| <= i128::MAX / 10 => no overflow
+    round_quot(quot, rem, (shift as u128) << 1, mode).unwrap()
+}
+
 /// Divide 'divident * 10^p' by 'divisor' and round result according to
 /// 'mode'.
 #[doc(hidden)]
